@@ -1,26 +1,27 @@
 """Shared by C02/C10/C11: script format, generators, output parser and the property
 monitors for the generic runtime scripts (coq/Runtime/Model.v `run`, harness/src/bin/rt.rs).
 
-script: n t start budget  nb {bcall}  K {na {action}}  np {time label}  {sop}
+script: n t u start budget  nb {bcall}  K {na {action}}  np {time label}  {sop}
   bcall  = 1 n (max_itr) | 2 T (max_time) | 3 tree (limit)
   tree   = 0 | 1 n | 2 T | 3 tree tree (And) | 4 tree tree (Or)
   action = kind x label   (kind 0: add_event_in(label, x); else add_event(label, x))
   sop    = 1 k | 2 T | 3 time label
+every time is in units of u ns (u = 0 means 1) and printed divided by u; n, t are plain ns
 output: three blocks (U: no limit, A: configured limit via run(), B: stepped), each
   {1 | 9 1}^np  [step records]  4 count end  nlog {label now}  nadds {time label now ctx ok}  nrem {time label}
 """
 
 # ----------------------------------------------------------------------------- structure
 class Script:
-    def __init__(self, n=4, t=1, start=0, budget=0, calls=None, table=None, pre=None, sched=None):
-        self.n, self.t, self.start, self.budget = n, t, start, budget
+    def __init__(self, n=4, t=1, start=0, budget=0, calls=None, table=None, pre=None, sched=None, unit=0):
+        self.n, self.t, self.start, self.budget, self.unit = n, t, start, budget, unit
         self.calls = calls or []      # ('itr', n) | ('time', T) | ('limit', tree)
         self.table = table or []      # list of list of (kind, x, label)
         self.pre = pre or []          # (time, label)
         self.sched = sched or []      # (1,k) | (2,T) | (3,time,label)
 
     def encode(self):
-        out = [self.n, self.t, self.start, self.budget, len(self.calls)]
+        out = [self.n, self.t, self.unit, self.start, self.budget, len(self.calls)]
         for c in self.calls:
             if c[0] == 'itr':
                 out += [1, c[1]]
@@ -89,7 +90,8 @@ def dec_counted(c, f):
 
 def decode(script):
     s = Script(script[0] if script else 0, script[1] if len(script) > 1 else 0)
-    c = Cur(script[2:])
+    s.unit = script[2] if len(script) > 2 else 0
+    c = Cur(script[3:])
     s.start = c.next()
     s.budget = c.next()
 
@@ -125,11 +127,11 @@ def split(script):
         ops += [('act', lb, a) for a in acts]
     ops += [('pre', p) for p in s.pre]
     ops += [('sop', o) for o in s.sched]
-    return [s.n, s.t, s.start, s.budget, len(s.table)], ops
+    return [s.n, s.t, s.start, s.budget, len(s.table), s.unit], ops
 
 
 def join(hdr, ops):
-    s = Script(hdr[0], hdr[1], hdr[2], hdr[3])
+    s = Script(hdr[0], hdr[1], hdr[2], hdr[3], unit=hdr[5])
     s.table = [[] for _ in range(hdr[4])]
     for o in ops:
         if o[0] == 'call':
@@ -156,7 +158,7 @@ def show_tree(tr):
 
 def pretty(script):
     s = decode(script)
-    parts = ["cqueue(n=%d,t=%dns) start_time=%d budget=%d" % (s.n, s.t, s.start, s.budget)]
+    parts = ["cqueue(n=%d,t=%dns) unit=%dns start_time=%d budget=%d" % (s.n, s.t, s.unit or 1, s.start, s.budget)]
     for c in s.calls:
         parts.append({'itr': "max_itr(%d)", 'time': "max_time(%d)"}[c[0]] % c[1] if c[0] != 'limit' else "limit(%s)" % show_tree(c[1]))
     for lb, acts in enumerate(s.table):
@@ -483,21 +485,33 @@ def unlimited(s):
 NT = [(1, 1), (2, 3), (3, 1000), (7, 2500000), (32, 1000), (1028, 2500000), (4, 1), (1, 1000)]
 
 
-def gen_program(rng, below_start=True, at_start=True):
-    """A random program: cqueue parameters, start time, table, pre-run adds."""
-    n, t = rng.choice(NT)
-    if rng.random() < 0.15:
-        n, t = rng.randint(1, 40), rng.randint(1, 50)
-    u = rng.choice([1, t, max(1, t - 1), t * n, 7 * t + 1, t + 1])
-    c = rng.random()
-    if c < 0.45:
-        start = 0
-    elif c < 0.65:
-        start = rng.choice([1, u, 3 * u, 2 * t * n])
-    elif c < 0.85:
-        start = 1000 * t + rng.randint(0, 5)
+def gen_program(rng, below_start=True, at_start=True, beyond=None):
+    """A random program: cqueue parameters, start time, table, pre-run adds.  With probability ~10% (or when
+    `beyond` is set) the program lives around / beyond 2^64 ns: the time unit is 2^32..2^36 ns, the start time
+    lies a few units below the boundary (so the run crosses it) or beyond it, the bucket width is unit/c."""
+    if beyond is None:
+        beyond = rng.random() < 0.10
+    unit = 0
+    if beyond:
+        unit = 1 << rng.choice([32, 34, 36])
+        n, t = rng.choice([1, 3, 7, 10, 32]), unit // rng.choice([1, 2, 4, 8])
+        u, tt = 1, 1
+        start = (1 << 64) // unit + rng.choice([-3, -2, -1, -1, 0, 1, 5, 50])
     else:
-        start = 150000 * t + rng.randint(0, t)
+        n, t = rng.choice(NT)
+        if rng.random() < 0.15:
+            n, t = rng.randint(1, 40), rng.randint(1, 50)
+        tt = t
+        u = rng.choice([1, t, max(1, t - 1), t * n, 7 * t + 1, t + 1])
+        c = rng.random()
+        if c < 0.45:
+            start = 0
+        elif c < 0.65:
+            start = rng.choice([1, u, 3 * u, 2 * t * n])
+        elif c < 0.85:
+            start = 1000 * t + rng.randint(0, 5)
+        else:
+            start = 150000 * t + rng.randint(0, t)
     K = rng.randint(1, 5)
     m = rng.randint(1, 4)
     base = sorted(set(start + rng.choice([0, 0, 1, 2, 3, 5, 8]) * u + rng.choice([0, 0, 0, 1]) for _ in range(m)))
@@ -512,7 +526,7 @@ def gen_program(rng, below_start=True, at_start=True):
             if c < 0.35:
                 acts.append((0, 0, lb))
             elif c < 0.80:
-                acts.append((0, rng.choice([1, u, 2 * u, t, rng.randint(0, 3 * u)]), lb))
+                acts.append((0, rng.choice([1, u, 2 * u, tt, rng.randint(0, 3 * u)]), lb))
             else:
                 x = rng.choice(base) + rng.choice([-1, 0, 0, 1, u, 4 * u])
                 acts.append((1, max(0, x), lb))
@@ -525,7 +539,7 @@ def gen_program(rng, below_start=True, at_start=True):
             tm = rng.choice([start - 1, start // 2, 0, max(0, start - u)])
         pre.append((tm, rng.randint(0, K - 1)))
     budget = rng.choice([0, 1, 2, 3, 5, 8, 12, 20])
-    return Script(n, t, start, budget, [], table, pre, [])
+    return Script(n, t, start, budget, [], table, pre, [], unit)
 
 
 def interesting_times(log, start, rng):
@@ -610,7 +624,9 @@ def small_programs(at_start=True):
     """Small-scope enumeration of programs: up to 3 pre-run events over 2 timestamps and the labels of
     a tiny table with zero-delay / unit-delay follow-ups."""
     out = []
-    for start in (0, 2):
+    for start in (0, 2, (1 << 32) - 1):
+        # the third start time is one unit (2^32 ns) below 2^64 ns: every such run crosses the boundary
+        n, t, unit = (2, 1, 0) if start < 10 else (3, 1 << 31, 1 << 32)
         for table in ([[]], [[(0, 0, 0)]], [[(0, 1, 0)]], [[(0, 0, 1)], []], [[(0, 0, 1), (0, 1, 1)], []]):
             K = len(table)
             t0 = start if (at_start or start == 0) else start + 1
@@ -622,7 +638,7 @@ def small_programs(at_start=True):
                 pres += layer
             for pre in pres:
                 for budget in ((0,) if table == [[]] else (1, 3)):
-                    out.append(Script(2, 1, start, budget, [], table, list(pre), []))
+                    out.append(Script(n, t, start, budget, [], table, list(pre), [], unit))
     return out
 
 
@@ -646,6 +662,9 @@ def mechanisms(script, out):
         m.add("start_nonzero")
         if any(p[0] < s.start for p in s.pre): m.add("pre_add_below_start")
         if any(p[0] == s.start for p in s.pre): m.add("pre_add_at_start")
+    un = s.unit or 1
+    if s.start * un >= 1 << 64: m.add("start_beyond_2^64ns")
+    elif times and times[-1] * un >= 1 << 64: m.add("run_crosses_2^64ns")
     if len(s.calls) > 1: m.add("builder_multi")
     if L[0] != 'none':
         if tree_depth(L) >= 2: m.add("tree_depth>=2")
